@@ -243,7 +243,8 @@ class MainTransformer(object):
         param = node.instance_parameter
         tag = block.params.get(param.argname)
         annotations = tag.annotations if tag else {}
-        transfer = annotations.get(ANN_TRANSFER, ['none'])[0]
+        # a bare "(transfer)" has already been reported by the annotation parser
+        transfer = (annotations.get(ANN_TRANSFER) or [OPT_TRANSFER_NONE])[0]
 
         if ANN_NULLABLE in annotations:
             message.strict_node(node,
